@@ -565,4 +565,8 @@ def check(ctx, rep):
     rule_open_status(ctx, rep)
     rule_match_columns(ctx, rep)
     rule_candidates_all(ctx, rep)
+    from .c12 import rule_location_file_verbatim
+
+    # findings reach a file only under the very path the directory walk yields for it
+    rule_location_file_verbatim(ctx, rep)
     rep.not_covered += ["column arithmetic of match_location against each tool's real output", "closed/resolved issue filtering beyond the Sonar status test"]
